@@ -576,6 +576,10 @@ def rule_dedup(ctx: Ctx) -> RuleResult:
         if not yields:
             res.violation([q, "no yield"], f"{f.short} yields nothing itself", f.relpath, f.node.lineno)
             continue
+        for yf in [y for y in _yields(f) if isinstance(y, ast.YieldFrom)]:
+            res.violation([q, "unguarded yield from", norm(yf.value)[:60]], f"{f.short}: `yield from {norm(yf.value)[:60]}` hands results through without the "
+                                                                            f"seen-set test: the same entry can be returned once per unfolded form",
+                          f.relpath, yf.lineno, site=f"{label}: `yield from {norm(yf.value)[:40]}`")
         sets = {d.var for d in flow.all_defs if d.kind == "assign" and d.value is not None and norm(d.value) == "set()"}
         adders: Dict[str, str] = {}  # alias name -> set var
         for d in flow.all_defs:
@@ -1170,6 +1174,23 @@ def rule_sort(ctx: Ctx) -> RuleResult:
         res.ok("sorted_search input", "duplicates are removed before sorting")
     else:
         res.violation([f.qualname, "duplicates"], "sorted_search sorts without removing duplicates", f.relpath, s.lineno)
+    # the '>' algorithm lives in FindByGlob alone: the Finders built on it supply star_search and nothing else of the dispatch
+    base = ctx.p.cls("spil.sid.read.finders.find_glob.FindByGlob")
+    n_sub = 0
+    for k in ctx.p.subclasses(base):
+        if k.module.kind not in ("library", "config") or k.module.name == "spil.sid.read.finders.find_cache":
+            continue
+        n_sub += 1
+        for nm in ("sorted_search", "do_find"):
+            if nm in k.methods:
+                m = k.methods[nm]
+                outs = [n for n in own_nodes(m.node) if isinstance(n, (ast.Yield, ast.YieldFrom)) or (isinstance(n, ast.Return) and n.value is not None)]
+                if len(outs) == 1 and not isinstance(outs[0], ast.Yield) and norm(outs[0].value).startswith(f"super().{nm}(") and not any(
+                        isinstance(n, ast.Return) and n.value is None for n in own_nodes(m.node)):
+                    continue
+                res.violation([k.qualname, nm, "override"], f"{k.name} overrides {nm}: '>' searches on it are answered by another algorithm than "
+                                                            f"FindByGlob.sorted_search", m.relpath, m.node.lineno)
+    res.ok("FindByGlob subclasses", f"{n_sub} subclass(es), none overrides sorted_search / do_find", nontrivial=False)
     return res
 
 
